@@ -1566,6 +1566,24 @@ static void MPSreadRows(MPSInput& mps, LPRowSetBase<R>& rset, NameSet& rnames, S
 
 
 
+/// Converts the value field \p s of an MPS record and returns false unless it is a complete, finite decimal number:
+/// atof() takes "nan", "inf" and hexadecimal numbers for values and reads "1/3" as 1 and "abc" as 0.
+template <class R>
+static bool MPSreadValue(const char* s, R& val)
+{
+   char* end;
+   double d = strtod(s, &end);
+
+   if(end == s || *end != '\0' || strspn(s, "+-.0123456789eE") != strlen(s) || !std::isfinite(d))
+      return false;
+
+   val = d;
+
+   return true;
+}
+
+
+
 /// Process COLUMNS section.
 template <class R>
 static void MPSreadCols(MPSInput& mps, const LPRowSetBase<R>& rset, const NameSet&  rnames,
@@ -1643,7 +1661,8 @@ static void MPSreadCols(MPSInput& mps, const LPRowSetBase<R>& rset, const NameSe
          }
       }
 
-      val = atof(mps.field3());
+      if(!MPSreadValue(mps.field3(), val))
+         break;
 
       if(!strcmp(mps.field2(), mps.objName()))
          col.setObj(val);
@@ -1666,7 +1685,8 @@ static void MPSreadCols(MPSInput& mps, const LPRowSetBase<R>& rset, const NameSe
       {
          assert(mps.field4() != nullptr);
 
-         val = atof(mps.field5());
+         if(!MPSreadValue(mps.field5(), val))
+            break;
 
          if(!strcmp(mps.field4(), mps.objName()))
             col.setObj(val);
@@ -1744,7 +1764,8 @@ static void MPSreadRhs(MPSInput& mps, LPRowSetBase<R>& rset, const NameSet& rnam
             mps.entryIgnored("RHS", mps.field1(), "row", mps.field2());
          else
          {
-            val = atof(mps.field3());
+            if(!MPSreadValue(mps.field3(), val))
+               break;
 
             // LE or EQ
             if(rset.rhs(idx) < R(infinity))
@@ -1761,7 +1782,8 @@ static void MPSreadRhs(MPSInput& mps, LPRowSetBase<R>& rset, const NameSet& rnam
                mps.entryIgnored("RHS", mps.field1(), "row", mps.field4());
             else
             {
-               val = atof(mps.field5());
+               if(!MPSreadValue(mps.field5(), val))
+                  break;
 
                // LE or EQ
                if(rset.rhs(idx) < R(infinity))
@@ -1833,7 +1855,8 @@ static void MPSreadRanges(MPSInput& mps,  LPRowSetBase<R>& rset, const NameSet& 
             mps.entryIgnored("Range", mps.field1(), "row", mps.field2());
          else
          {
-            val = atof(mps.field3());
+            if(!MPSreadValue(mps.field3(), val))
+               break;
 
             // EQ
             if((rset.lhs(idx) > R(-infinity)) && (rset.rhs_w(idx) <  R(infinity)))
@@ -1863,7 +1886,8 @@ static void MPSreadRanges(MPSInput& mps,  LPRowSetBase<R>& rset, const NameSet& 
                mps.entryIgnored("Range", mps.field1(), "row", mps.field4());
             else
             {
-               val = atof(mps.field5());
+               if(!MPSreadValue(mps.field5(), val))
+                  break;
 
                // EQ
                if((rset.lhs(idx) > R(-infinity)) && (rset.rhs(idx) <  R(infinity)))
@@ -1962,8 +1986,8 @@ static void MPSreadBounds(MPSInput& mps, LPColSetBase<R>& cset, const NameSet& c
             else if(!strcmp(mps.field4(), "Inf") || !strcmp(mps.field4(), "inf")
                     || !strcmp(mps.field4(), "+Inf") || !strcmp(mps.field4(), "+inf"))
                val = R(infinity);
-            else
-               val = atof(mps.field4());
+            else if(!MPSreadValue(mps.field4(), val))
+               break;
 
             // ILOG extension (Integer Bound); "MI" is the ordinary bound type for a lower bound of minus infinity
             if(!strcmp(mps.field1(), "LI") || !strcmp(mps.field1(), "UI"))
